@@ -475,8 +475,24 @@ def rule_strategy(repo, tier):
     return res
 
 
+@guarded
+def rule_lossall(repo, tier):
+    """the loss LM / GN compare and return covers EVERY residual block (same analysis as C09.AXIS/SEL, reported for C08: "the value step returns
+    equals the robust loss at the parameters it left behind")"""
+    from .c09 import rule_sel_axis
+    r = rule_sel_axis(repo, tier)
+    keep = [f for f in r.findings if 'loss' in (f.func or '') or 'SEL' in f.rule]
+    out = RuleResult('C08.LOSS', 'RobustModel.loss sums the kernelised squared norms of ALL residual blocks: one kernel serves every block, several kernels are '
+                     'paired one to one (a zip over a shorter kernel list silently drops the remaining blocks from the loss that trials are judged by)', floor=1)
+    out.instances = list(r.instances)
+    out.nontrivial = set(r.nontrivial)
+    for f in keep:
+        out.add(Finding('C08.LOSS', (f.file, f.line, f.func), f.what, construct=f.construct))
+    return out
+
+
 def _rules_core(repo, tier):
-    return [rule_ts(repo, tier), rule_rej_exc_strat(repo, tier), rule_strategy(repo, tier)]
+    return [rule_lossall(repo, tier), rule_ts(repo, tier), rule_rej_exc_strat(repo, tier), rule_strategy(repo, tier)]
 
 
 def rules(repo, tier):
